@@ -301,9 +301,14 @@ fn sample_value<C: Serialize>(case: &C) -> Value {
 /// signatures carry the suffix `@alt` there, so that a finding known for one
 /// configuration does not hide anything in the other.
 pub const ALT_CONFIG: bool = cfg!(feature = "lib-compact");
+/// Third configuration: scpi without alloc and without unit features (no uom), arrayvec + compact; only the
+/// properties that need neither are compiled (props::all).
+pub const MIN_CONFIG: bool = cfg!(not(feature = "full"));
 
 pub fn library_configuration() -> &'static str {
-    if ALT_CONFIG {
+    if MIN_CONFIG {
+        "scpi built with arrayvec + compact only: no `alloc`, no `std`, no unit features (uom absent); scpi-contrib not built"
+    } else if ALT_CONFIG {
         "scpi built without `std` (no_std + alloc) and with `compact` (lexical-core's compact algorithms), arrayvec, all unit features; scpi-contrib with its `unproven` feature"
     } else {
         "scpi with alloc + arrayvec + std and all unit features (default of the harness)"
@@ -398,7 +403,7 @@ impl Engine {
         self.known
             .iter()
             // a finding listed without a configuration suffix holds in every library configuration
-            .find(|k| k.status == "known" && k.property == self.property && (k.signature == sig || (!k.signature.contains('@') && sig.strip_suffix("@alt") == Some(k.signature.as_str()))))
+            .find(|k| k.status == "known" && k.property == self.property && (k.signature == sig || (!k.signature.contains('@') && (sig.strip_suffix("@alt") == Some(k.signature.as_str()) || sig.strip_suffix("@min") == Some(k.signature.as_str())))))
     }
 
     fn absorb(&self, obs: &Obs, sample: impl FnOnce() -> Value, local: &mut LocalStats) {
@@ -435,6 +440,10 @@ impl Engine {
         if ALT_CONFIG && !failure.signature.starts_with("harness") {
             failure.signature.push_str("@alt");
             failure.message = format!("[library configuration: no std, lexical-core compact] {}", failure.message);
+        }
+        if MIN_CONFIG && !failure.signature.starts_with("harness") {
+            failure.signature.push_str("@min");
+            failure.message = format!("[library configuration: no alloc, no unit features, arrayvec + compact] {}", failure.message);
         }
         if failure.signature.starts_with("harness") {
             // a defect of the machinery (generator produced something its own
@@ -716,7 +725,7 @@ impl Engine {
         if self.replay_only || self.failed() || self.filtered_out(name) {
             return;
         }
-        if cfg!(debug_assertions) || ALT_CONFIG {
+        if cfg!(debug_assertions) || ALT_CONFIG || MIN_CONFIG {
             // the fuzz targets are built once (by cargo-fuzz, default library configuration, with
             // debug assertions on); the campaign is driven from the default release run only
             return;
